@@ -324,3 +324,27 @@ pub fn run_sched(sched_path: &str, out_path: &str, mode: &str) -> Value {
     let events = t.finish();
     json!({"runs": runs, "steps": steps, "events": events, "skipped_steps": skipped})
 }
+
+/// C13 tag normalisation: Frame::parse on a tagged frame for every one of the 65536 tag-control values (and untagged)
+pub fn run_vlan(out_path: &str) -> Value {
+    let mut t = Trace::create(out_path);
+    let mut n = 0u64;
+    let f0 = eth_frame(mac(1), mac(2), None, &[0u8; 8]);
+    let (s0, _) = Frame::parse(&f0).expect("untagged frame");
+    t.ev(json!({"op":"vlan","tci":UNTAGGED,"alen":s0.len,"key":[0, 0],"res":"ok"}));
+    for tci in 0..=65535u32 {
+        let f = eth_frame(mac(1), mac(2), Some(tci as u16), &[0u8; 8]);
+        n += 1;
+        match guarded(|| Frame::parse(&f)) {
+            Ok(Ok((src, dst))) => {
+                let key = if src.len == 8 { [src.data[0] as u64, src.data[1] as u64] } else { [0, 0] };
+                let same = src.len == dst.len && (src.len == 6 || src.data[..2] == dst.data[..2]);
+                t.ev(json!({"op":"vlan","tci":tci,"alen":src.len,"key":key,"res": if same { "ok" } else { "mismatch" }}));
+            }
+            Ok(Err(_)) => t.ev(json!({"op":"vlan","tci":tci,"alen":0,"key":[0,0],"res":"reject"})),
+            Err(_) => t.ev(json!({"op":"vlan","tci":tci,"alen":0,"key":[0,0],"res":"panic"})),
+        }
+    }
+    let events = t.finish();
+    json!({"runs": 1, "steps": n, "events": events})
+}
